@@ -176,6 +176,8 @@ structure Inv (p : Params) (s : State) : Prop where
   u_none : p.unsubAt = none → s.udone = true
   sub_u : s.w.sub = true → s.udone = false ∨ p.unsubAt = none
   take_sub : s.w.sub = true → ∀ c : Nat, p.take = some c → s.w.n = 0 ∨ s.w.n < c
+  /-- between the two halves of a completing tick the worker is still inside `s.next(n)` -/
+  half_emit : s.half = true → s.w.pc = .emit
 
 theorem inv_init (p : Params) : Inv p (init p) := by
   constructor <;> simp [init, IW.inv_init]
@@ -183,7 +185,7 @@ theorem inv_init (p : Params) : Inv p (init p) := by
 
 theorem timely {p : Params} {s : State} (h : Inv p s) (hs : s.w.sub = true) (k : Nat)
     (hk : (k + 1) * p.d < s.now) : k < s.w.n := by
-  obtain ⟨iw, h1, h2, h3, h4, h5, h6, h7⟩ := h
+  obtain ⟨iw, h1, h2, h3, h4, h5, h6, h7, h8⟩ := h
   cases hp : s.w.pc
   · rw [h1 hp] at hk; have := Nat.lt_of_mul_lt_mul_right hk; omega
   · have := (iw.sl_now hp).1; rw [h2 hp] at this
@@ -194,7 +196,7 @@ theorem timely {p : Params} {s : State} (h : Inv p s) (hs : s.w.sub = true) (k :
   · obtain ⟨e, x, he, _⟩ := iw.ex_end hp; have := iw.sub_iff.1 hs; simp_all
 
 theorem step_inv {p : Params} {s s' : State} {l : Label} (h : Inv p s) (hs : step p s l = some s') : Inv p s' := by
-  obtain ⟨iw, h1, h2, h3, h4, h5, h6, h7⟩ := h
+  obtain ⟨iw, h1, h2, h3, h4, h5, h6, h7, h8⟩ := h
   cases l with
   | tick t' =>
     simp only [step] at hs
@@ -214,12 +216,24 @@ theorem step_inv {p : Params} {s s' : State} {l : Label} (h : Inv p s) (hs : ste
       simp only [step] at hs
       split at hs
       · next hp =>
-        injection hs with hs; subst hs
-        have iw' := IW.emitted_inv (completes p s.w) iw hp
-        constructor <;> simp_all [IW.emitted]
-        · intro hsub hc c hc'
-          simp [completes, hsub, hc'] at hc
-          omega
+        split at hs
+        · -- second half of a completing tick
+          next hh =>
+          injection hs with hs; subst hs
+          have iw' := IW.emitted_inv true iw hp
+          constructor <;> simp_all [IW.emitted]
+        · split at hs
+          · -- first half: only `log` and `half` change
+            next hh hc =>
+            injection hs with hs; subst hs
+            constructor <;> simp_all
+          · next hh hc =>
+            injection hs with hs; subst hs
+            have iw' := IW.emitted_inv (completes p s.w) iw hp
+            constructor <;> simp_all [IW.emitted]
+            · intro hsub hc c hc'
+              simp [completes, hsub, hc'] at hc
+              omega
       · next hp =>
         split at hs
         · next w' hw =>
@@ -247,8 +261,12 @@ theorem step_inv {p : Params} {s s' : State} {l : Label} (h : Inv p s) (hs : ste
 def fin (p : Params) (c : Nat) : List Out := [(max c 1 * p.d, Ev.complete)]
 
 structure Shape (p : Params) (s : State) (m : Nat) : Prop where
-  le_n : m ≤ s.w.n
-  sub_eq : s.w.sub = true → m = s.w.n ∧ s.log = ticks p.d m
+  le_n : s.half = false → m ≤ s.w.n
+  sub_eq : s.w.sub = true → s.half = false → m = s.w.n ∧ s.log = ticks p.d m
+  /-- between the two halves of the completing tick of `take(c)`: tick `n = c - 1` is already in the log, `n` is not yet
+      incremented; the subscriber can only have been unsubscribed by thread 1, at this very instant -/
+  half_eq : s.half = true → m = s.w.n + 1 ∧ p.take = some m ∧ s.log = ticks p.d m ∧
+    (s.w.sub = false → ∃ u : Nat, p.unsubAt = some u ∧ u ≤ m * p.d)
   log : s.log = ticks p.d m ∨ ∃ c : Nat, p.take = some c ∧ s.w.sub = false ∧ m = c ∧ s.log = ticks p.d m ++ fin p c
   before_u : ∀ k u : Nat, k < m → p.unsubAt = some u → (k + 1) * p.d ≤ u
   below_c : ∀ k c : Nat, k < m → p.take = some c → k < c
@@ -262,7 +280,7 @@ theorem shape_init (p : Params) : Shape p (init p) 0 := by
 
 theorem shape_step {p : Params} {s s' : State} {l : Label} {m : Nat} (h : Inv p s) (hm : Shape p s m)
     (hs : step p s l = some s') : ∃ m', Shape p s' m' := by
-  obtain ⟨iw, h1, h2, h3, h4, h5, h6, h7⟩ := h
+  obtain ⟨iw, h1, h2, h3, h4, h5, h6, h7, h8⟩ := h
   cases l with
   | tick t' =>
     simp only [step] at hs
@@ -271,60 +289,99 @@ theorem shape_step {p : Params} {s s' : State} {l : Label} {m : Nat} (h : Inv p 
       obtain ⟨c1, c2, c3⟩ := hc
       injection hs with hs; subst hs
       refine ⟨m, ?_⟩
-      obtain ⟨g1, g2, g3, g4, g5, g6, g7⟩ := hm
+      obtain ⟨g1, g2, gh, g3, g4, g5, g6, g7⟩ := hm
       constructor <;> simp_all
+      · intro hh; simp [IW.allowsTick, h8 hh] at c2
     · contradiction
   | run tid =>
     match tid with
     | 0 =>
-      obtain ⟨g1, g2, g3, g4, g5, g6, g7⟩ := hm
+      obtain ⟨g1, g2, gh, g3, g4, g5, g6, g7⟩ := hm
       simp only [step] at hs
       split at hs
       · next hp =>
-        injection hs with hs; subst hs
         have hnow := h3 hp
-        cases hsub : s.w.sub
-        · -- already unsubscribed: nothing is delivered
+        split at hs
+        · -- second half of a completing tick: `complete` is delivered iff the subscriber is still subscribed
+          next hh =>
+          injection hs with hs; subst hs
+          obtain ⟨e1, e2, e3, e4⟩ := gh hh
+          have hmax : max m 1 = m := by omega
           refine ⟨m, ?_⟩
-          constructor <;> simp_all [IW.emitted, delivers, completes]
-          omega
-        · obtain ⟨g2a, g2b⟩ := g2 hsub
-          subst g2a
-          have hu : ∀ u : Nat, p.unsubAt = some u → (s.w.n + 1) * p.d ≤ u := by
-            intro u hu
-            rcases h6 hsub with h | h
-            · rw [← hnow]; exact h4 h u hu
-            · simp [h] at hu
-          cases htk : p.take with
-          | none =>
-            refine ⟨s.w.n + 1, ?_⟩
-            constructor <;> simp_all [IW.emitted, delivers, completes, ticks_succ]
-            · intro k u hk hu'; rcases Nat.lt_succ_iff_lt_or_eq.1 hk with h | h
-              · exact g4 k u h hu'
-              · subst h; exact hu u hu'
-          | some c =>
-            have h7' := h7 hsub c htk
-            by_cases hlt : s.w.n < c
-            · by_cases hc : c ≤ s.w.n + 1
-              · have hce : c = s.w.n + 1 := by omega
-                have hmax : max c 1 = s.w.n + 1 := by omega
+          cases hsub : s.w.sub
+          · obtain ⟨u, eu, eu'⟩ := e4 hsub
+            constructor <;> simp_all [IW.emitted, fin]
+          · constructor <;> simp_all [IW.emitted, fin]
+        · split at hs
+          · -- first half: the item of the completing tick is delivered
+            next hh hc =>
+            injection hs with hs; subst hs
+            have hh' : s.half = false := by simpa using hh
+            clear hh gh
+            have hsub : s.w.sub = true := by
+              have := hc.1; simp [delivers] at this; exact this.1
+            obtain ⟨g2a, g2b⟩ := g2 hsub hh'
+            subst g2a
+            have hu : ∀ u : Nat, p.unsubAt = some u → (s.w.n + 1) * p.d ≤ u := by
+              intro u hu
+              rcases h6 hsub with h | h
+              · rw [← hnow]; exact h4 h u hu
+              · simp [h] at hu
+            cases htk : p.take with
+            | none => simp [completes, htk] at hc
+            | some c =>
+              have hce : c = s.w.n + 1 := by
+                have a := hc.1; have b := hc.2; simp [delivers, completes, hsub, htk] at a b; omega
+              subst hce
+              clear hc
+              refine ⟨s.w.n + 1, ?_⟩
+              constructor <;> simp_all [ticks_succ]
+              · intro k u hk hu'; rcases Nat.lt_succ_iff_lt_or_eq.1 hk with h | h
+                · exact g4 k u h hu'
+                · subst h; exact hu u hu'
+          · next hh hnc =>
+            injection hs with hs; subst hs
+            have hh' : s.half = false := by simpa using hh
+            clear hh gh
+            cases hsub : s.w.sub
+            · -- already unsubscribed: nothing is delivered
+              refine ⟨m, ?_⟩
+              constructor <;> simp_all [IW.emitted, delivers, completes]
+              omega
+            · obtain ⟨g2a, g2b⟩ := g2 hsub hh'
+              subst g2a
+              have hu : ∀ u : Nat, p.unsubAt = some u → (s.w.n + 1) * p.d ≤ u := by
+                intro u hu
+                rcases h6 hsub with h | h
+                · rw [← hnow]; exact h4 h u hu
+                · simp [h] at hu
+              cases htk : p.take with
+              | none =>
                 refine ⟨s.w.n + 1, ?_⟩
-                constructor <;> simp_all [IW.emitted, delivers, completes, ticks_succ, fin]
+                constructor <;> simp_all [IW.emitted, delivers, completes, ticks_succ]
                 · intro k u hk hu'; rcases Nat.lt_succ_iff_lt_or_eq.1 hk with h | h
                   · exact g4 k u h hu'
                   · subst h; exact hu u hu'
-              · refine ⟨s.w.n + 1, ?_⟩
-                constructor <;> simp_all [IW.emitted, delivers, completes, ticks_succ, fin]
-                · intro k u hk hu'; rcases Nat.lt_succ_iff_lt_or_eq.1 hk with h | h
-                  · exact g4 k u h hu'
-                  · subst h; exact hu u hu'
-                · intro k hk; omega
-                · intro h; omega
-                · intro h; omega
-            · have hn0 : s.w.n = 0 := by omega
-              have hc0 : c = 0 := by omega
-              refine ⟨0, ?_⟩
-              constructor <;> simp_all [IW.emitted, delivers, completes, ticks, fin]
+              | some c =>
+                have h7' := h7 hsub c htk
+                by_cases hlt : s.w.n < c
+                · by_cases hc : c ≤ s.w.n + 1
+                  · have hce : c = s.w.n + 1 := by omega
+                    have hmax : max c 1 = s.w.n + 1 := by omega
+                    -- a delivered AND completing tick takes the two-step branches above
+                    exact absurd ⟨by simp [delivers, hsub, htk, hlt], by simp [completes, hsub, htk, hc]⟩ hnc
+                  · refine ⟨s.w.n + 1, ?_⟩
+                    constructor <;> simp_all [IW.emitted, delivers, completes, ticks_succ, fin]
+                    · intro k u hk hu'; rcases Nat.lt_succ_iff_lt_or_eq.1 hk with h | h
+                      · exact g4 k u h hu'
+                      · subst h; exact hu u hu'
+                    · intro k hk; omega
+                    · intro h; omega
+                    · intro h; omega
+                · have hn0 : s.w.n = 0 := by omega
+                  have hc0 : c = 0 := by omega
+                  refine ⟨0, ?_⟩
+                  constructor <;> simp_all [IW.emitted, delivers, completes, ticks, fin]
       · split at hs
         · next w' hw =>
           injection hs with hs; subst hs
@@ -341,24 +398,46 @@ theorem shape_step {p : Params} {s s' : State} {l : Label} {m : Nat} (h : Inv p 
           injection hs with hs; subst hs
           refine ⟨m, ?_⟩
           have hnow : s.now = u := Nat.le_antisymm (h4 hc.1 u hu) hc.2
-          have htm := fun (hsub : s.w.sub = true) => timely ⟨iw, h1, h2, h3, h4, h5, h6, h7⟩ hsub
-          obtain ⟨g1, g2, g3, g4, g5, g6, g7⟩ := hm
-          constructor <;> simp_all [IW.cancel]
-          · cases hsub : s.w.sub <;> simp_all
-          · intro k hk hc'
-            cases hsub : s.w.sub
-            · exact g6 hsub k hk hc'
-            · have := htm hsub k hk; have := (g2 hsub).1; omega
-          · intro c hc' hcu
-            cases hsub : s.w.sub
-            · exact g7 hsub c hc' hcu
-            · exfalso
-              have h7' := h7 hsub c hc'
-              have := htm hsub (max c 1 - 1)
-              have e : max c 1 - 1 + 1 = max c 1 := by omega
-              rw [e] at this
-              have := this hcu
-              omega
+          have htm := fun (hsub : s.w.sub = true) => timely ⟨iw, h1, h2, h3, h4, h5, h6, h7, h8⟩ hsub
+          obtain ⟨g1, g2, gh, g3, g4, g5, g6, g7⟩ := hm
+          cases hh : s.half
+          · clear gh
+            constructor <;> simp_all [IW.cancel]
+            · cases hsub : s.w.sub <;> simp_all
+            · intro k hk hc'
+              cases hsub : s.w.sub
+              · exact g6 hsub k hk hc'
+              · have := htm hsub k hk; have := (g2 hsub).1; omega
+            · intro c hc' hcu
+              cases hsub : s.w.sub
+              · exact g7 hsub c hc' hcu
+              · exfalso
+                have h7' := h7 hsub c hc'
+                have := htm hsub (max c 1 - 1)
+                have e : max c 1 - 1 + 1 = max c 1 := by omega
+                rw [e] at this
+                have := this hcu
+                omega
+          · -- unsubscribe between the two halves of the completing tick
+            obtain ⟨e1, e2, e3, e4⟩ := gh hh
+            have hem := h3 (h8 hh)
+            have hmax : max m 1 = m := by omega
+            have hu' : u = m * p.d := by rw [← hnow, hem, e1]
+            constructor
+            · intro h; simp at h
+            · intro h; simp [IW.cancel] at h
+            · intro _
+              exact ⟨by simpa [IW.cancel] using e1, e2, e3, fun _ => ⟨u, hu, Nat.le_of_eq hu'⟩⟩
+            · exact Or.inl e3
+            · exact g4
+            · exact g5
+            · intro _ k _ hc'; exact hc' m e2
+            · intro _ c hc' hcu
+              have hcm : c = m := by
+                have h := hc'; rw [e2] at h; injection h with h; exact h.symm
+              subst hcm
+              have := hcu u hu
+              rw [hmax] at this; omega
         · contradiction
       · contradiction
     | n + 2 => simp [step] at hs
@@ -391,7 +470,10 @@ theorem interval_ticks (p : Params) (s : State) (hr : Reach (step p) (init p) s)
   · intro k hk hu hc
     cases hsub : s.w.sub
     · exact hm.timely hsub k hu hc
-    · have := timely hi hsub k hk; have := (hm.sub_eq hsub).1; omega
+    · have := timely hi hsub k hk
+      cases hh : s.half
+      · have := (hm.sub_eq hsub hh).1; omega
+      · have := (hm.half_eq hh).1; omega
   · intro c hc hnow hu
     cases hsub : s.w.sub
     · exact hm.fin_due hsub c hc hu
@@ -442,9 +524,16 @@ theorem interval_tie_dropped :
 /-- non-vacuity: `interval(3).take(2)` with an unsubscribe at 100 reaches time 10 with `0@3, 1@6, complete@6` -/
 example :
     (runFrom (step { d := 3, unsubAt := some 100, take := some 2 }) (init { d := 3, unsubAt := some 100, take := some 2 })
-      [.run 0, .tick 3, .run 0, .run 0, .run 0, .tick 6, .run 0, .run 0, .run 0, .tick 9, .run 0, .run 0, .run 0, .tick 10]).map
+      [.run 0, .tick 3, .run 0, .run 0, .run 0, .tick 6, .run 0, .run 0, .run 0, .run 0, .tick 9, .run 0, .run 0, .run 0, .tick 10]).map
         (fun s => (s.now, s.log, s.w.pc))
       = some (10, [(3, Ev.next (.int 0)), (6, Ev.next (.int 1)), (6, Ev.complete)], WPc.exited) := by decide
+
+/-- unsubscribe between the two halves of the completing tick of `interval(2).take(1)`: the item is delivered,
+    `complete` is not -/
+theorem interval_take_unsub_between :
+    (runFrom (step { d := 2, unsubAt := some 2, take := some 1 }) (init { d := 2, unsubAt := some 2, take := some 1 })
+      [.run 0, .tick 2, .run 0, .run 0, .run 1, .run 0, .run 0, .tick 4, .run 0, .run 0, .run 0, .tick 5]).map
+      (fun s => (s.now, s.log, s.w.pc)) = some (5, [(2, Ev.next (.int 0))], WPc.exited) := by decide
 
 end Interval
 
